@@ -112,8 +112,16 @@ def run_acc(case, specs, ns):
   digest = []
 
   def bad(clause, what, **d):
-    if len(viol) < 8 and not any(v["key"] == clause for v in viol):
-      viol.append({"key": clause, "what": what, "detail": dict(a=list(aspec), **d)})
+    # one record per signature and case; `insts` names every failing operand combination (see C16)
+    inst = "a=%s|%s" % ("/".join(map(str, aspec)), "|".join("%s=%s" % (k, "/".join(map(str, v)) if isinstance(v, list) else v)
+                                                            for k, v in sorted(d.items())))
+    for v in viol:
+      if v["key"] == clause:
+        if inst not in v["_set"]:
+          v["_set"].add(inst)
+          v["insts"].append(inst)
+        return
+    viol.append({"key": clause, "what": what, "detail": dict(a=list(aspec), **d), "insts": [inst], "_set": {inst}})
   for xspec in specs:
     xT = qtypes.make_type(xspec)
     m = mf.make_multiplier(aT, xT)
@@ -167,7 +175,8 @@ def run_acc(case, specs, ns):
           f = _fields(acc.output)
           if use_bias is False and shape == (n, 3):
             if prev is not None and not _not_narrower(prev, f):
-              bad("mono:accumulator", "growing N narrows the accumulator: %r -> %r at N=%d (%r x %r)" % (prev, f, n, aspec, xspec))
+              bad("mono:accumulator", "growing N narrows the accumulator: %r -> %r at N=%d (%r x %r)" % (prev, f, n, aspec, xspec),
+                  x=list(xspec), n=n)
             prev = f
           if qtypes.size(ad) > qtypes.size(md):
             nontriv += 1
@@ -182,8 +191,16 @@ def run_pairs(case, specs, which):
   viol, evals, nontriv, digest = [], 0, 0, []
 
   def bad(clause, what, **d):
-    if len(viol) < 8 and not any(v["key"] == clause for v in viol):
-      viol.append({"key": clause, "what": what, "detail": dict(a=list(aspec), **d)})
+    # one record per signature and case; `insts` names every failing operand combination (see C16)
+    inst = "a=%s|%s" % ("/".join(map(str, aspec)), "|".join("%s=%s" % (k, "/".join(map(str, v)) if isinstance(v, list) else v)
+                                                            for k, v in sorted(d.items())))
+    for v in viol:
+      if v["key"] == clause:
+        if inst not in v["_set"]:
+          v["_set"].add(inst)
+          v["insts"].append(inst)
+        return
+    viol.append({"key": clause, "what": what, "detail": dict(a=list(aspec), **d), "insts": [inst], "_set": {inst}})
   if ad.kind == "empty":
     return viol, 1, 0, ["empty"]
   amin, amax, al = qtypes.extremes(ad)
@@ -250,6 +267,8 @@ def run_case(case):
     viol, evals, nontriv, digest = run_acc(case, specs, _ns(case["tier"]))
   else:
     viol, evals, nontriv, digest = run_pairs(case, specs, case["sub"])
+  for v in viol:
+    v.pop("_set", None)
   return {"evals": evals, "transitions": len(digest), "nontrivial": nontriv,
           "state": "%s:%r" % (case["sub"], case["a"]), "digest": common.digest(digest[:5000]), "violations": viol,
           "traces": 0, "sample": {"sub": case["sub"], "first_operand": case["a"], "results": len(digest),
